@@ -99,11 +99,28 @@ type outcome struct {
 
 func runMachine(m *xpath.Machine, it Item) string {
 	tr := &tree.Tree{NoRecord: true}
+	// every third node is a leaf-list with several values (of different lengths per variant), the others are leaves
+	tr.ValueOf = func(id tree.ID) (xpath.Datum, error) {
+		s := id.String()
+		v := tree.DefaultValue(id)
+		if it.Var != 0 {
+			v = fmt.Sprintf("v%d:%s", it.Var, s)
+		}
+		h := 0
+		for _, c := range s {
+			h = h*31 + int(c)
+		}
+		if h%3 != 0 {
+			return xpath.NewLiteralDatum(v), nil
+		}
+		var ds []xpath.Datum
+		for i := 0; i < 2+(h/3+it.Var)%3; i++ {
+			ds = append(ds, xpath.NewLiteralDatum(v+strings.Repeat("+", i*(it.Var+1))))
+		}
+		return xpath.NewDatumSliceDatum(ds), nil
+	}
 	if it.Var != 0 {
 		// an independent data tree of the same shape: what a node holds and where a leafref points differ
-		tr.ValueOf = func(id tree.ID) (xpath.Datum, error) {
-			return xpath.NewLiteralDatum(fmt.Sprintf("v%d:%s", it.Var, id)), nil
-		}
 		tr.LeafRefOf = func(id tree.ID) tree.ID {
 			return tree.ID{{Name: "lr"}, {Name: "target", Keys: map[string]string{"from": id.String(), "variant": fmt.Sprint(it.Var)}}}
 		}
@@ -270,7 +287,7 @@ var conc = fw.Register(&fw.Prop[Case]{
 	ID: "C06", Name: "concurrent",
 	Rule: "a pool of 4-12 expressions (C01/C02/C03 generators, function-heavy expressions, some that do not compile), each with an isolated oracle result, " +
 		"and a schedule of 2-16 goroutines with generated operation lists (compile+run a pool item; run a shared machine on a fresh context; run a shared machine on alternating contexts t,u,t, u being another node or the same node in a data tree with other values and leafref targets; " +
-		"each goroutine works on its own data variant); " +
+		"each goroutine works on its own data variant; a third of the nodes are multi-valued leaf-lists); " +
 		"half the cases re-arm the lazy plugin load (verif hook) and compile the shared machines concurrently (cold start); each schedule is executed 3 times; " +
 		"oracle: every result equals the isolated result, and the binary is built with -race (any report kills the shard and the journaled schedule becomes the replay); " +
 		"non-trivial = at least 2 goroutines run the same shared machine while at least one other goroutine compiles",
